@@ -60,3 +60,15 @@ CLAIMS['C12'] = dict(category='exploration', ref='8 C12', text=_CLIENT_TEXT % "T
                      technique="Lean 4 executable model + reference specification, differential correspondence with forced interleaving; proofs in progress")
 CLAIMS['C20'] = dict(category='exploration', ref='8 C20', text=_CLIENT_TEXT % "Theorems: under construction. Known finding E9 (callback invoked once per matching filter of one request) replayed on every run.",
                      technique="Lean 4 executable model + reference specification, differential correspondence; proofs in progress")
+
+CLAIMS['C02'] = dict(category='proof', ref='5 Core E, 8 C02',
+    text=_BROKER_TEXT % ("Theorems (21, all states satisfying the proved invariant BInv / all histories): exactly one PUBACK per QoS 1 PUBLISH and one "
+        "hand-over per PUBLISH received (C02_qos1); a QoS 2 PUBLISH is answered by exactly PUBREC and nothing is handed on at PUBLISH time, a "
+        "repeated identifier keeps the first content (C02_qos2_publish); PUBREL hands over the released prefix and is answered by exactly one "
+        "PUBCOMP, last (C02_pubrel, C02_releaseAll), PUBREC by exactly PUBREL (C02_pubrec); exactly-once conservation over any history of any "
+        "connections sharing a session: handed ++ still open = opened, in order (C02_exactly_once, C02_handed_is_output), eager release "
+        "(C02_release_eager), other events do not touch the queue (C02_queue_frame); the QoS 2 queue is the FIFO of C13 "
+        "(C02_pub2in_is_fifo/_is_ackqueue); persistence across reconnects of CleanSession=0 sessions (C02_persist, C02_resume, C02_clean_start). "
+        "The client role is tied by the client correspondence runs (its theorems are under C12/C20).") +
+        " PARTIAL: content isolation from ring-buffer reuse is a memory-aliasing fact the pure model cannot exhibit; it is covered by the "
+        "correspondence (payloads compared byte for byte after intervening traffic), not by a theorem.")
